@@ -296,6 +296,51 @@ JExportProblem(e, st) ==
            ELSE Ok(st)
 
 ----------------------------------------------------------------------------
+(* Printing numeric expressions (C12): every numeric condition / effect of  *)
+(* an action printed with a number of decimals and read back must have the  *)
+(* source's structure and, up to half a unit of the last printed decimal,   *)
+(* its constants.  Constants are compared in ticks of 10^-5.                *)
+
+Pow10(n) == CASE n = 0 -> 1 [] n = 1 -> 10 [] n = 2 -> 100 [] n = 3 -> 1000 [] n = 4 -> 10000 [] OTHER -> 100000
+Ticks(v) == v[1] * (100000 \div v[2])
+OnTickGrid(v) == v[2] # 0 /\ 100000 % v[2] = 0 /\ Abs(v[1]) <= 2000000000 \div (100000 \div v[2])
+NumClose(v1, v2, digits) ==
+  IF v1 = v2 THEN TRUE
+  ELSE IF ~OnTickGrid(v1) \/ ~OnTickGrid(v2) THEN FALSE
+  ELSE IF digits >= 5 THEN Ticks(v1) = Ticks(v2)
+  ELSE 2 * Abs(Ticks(v1) - Ticks(v2)) <= Pow10(5 - digits)
+
+RECURSIVE ExprClose(_, _, _)
+ExprClose(a, b, digits) ==
+  /\ a.k = b.k
+  /\ CASE a.k = "num" -> NumClose(a.v, b.v, digits)
+        [] a.k = "fl"  -> a.f = b.f /\ a.a = b.a
+        [] a.k = "bin" -> a.op = b.op /\ ExprClose(a.l, b.l, digits) /\ ExprClose(a.r, b.r, digits)
+        [] OTHER -> a = b
+
+CmpClose(a, b, digits) == a.k = "cmp" /\ b.k = "cmp" /\ a.op = b.op /\ ExprClose(a.l, b.l, digits) /\ ExprClose(a.r, b.r, digits)
+UpdClose(a, b, digits) == a.k = "upd" /\ b.k = "upd" /\ a.op = b.op /\ a.f = b.f /\ a.a = b.a /\ ExprClose(a.e, b.e, digits)
+
+\* a one-to-one correspondence between source and printed items (sequences)
+Matches(src, obs, close(_, _)) ==
+  /\ Len(src) = Len(obs)
+  /\ \E p \in Permutations(DOMAIN src) : \A i \in DOMAIN src : close(src[i], obs[p[i]])
+
+JPrintExpr(e, st) ==
+  LET D == st[e.d].D
+      a == ActionNamed(D, e.act)
+      srcC == SetToSeq(CmpsOfF(a.pre))
+      srcU == SelectSeq(a.eff, LAMBDA x : x.k = "upd")
+      obsC == [i \in DOMAIN e.out.pre |-> FormulaOfTree(e.out.pre[i])]
+      obsU == [i \in DOMAIN e.out.eff |-> SimpleEffOfTree(e.out.eff[i])]
+      cc(x, y) == CmpClose(x, y, e.digits)
+      uu(x, y) == UpdClose(x, y, e.digits)
+  IN  IF Has(e.out, "exc") THEN Fail("PrintExpr:exception", st)
+      ELSE IF ~e.out.reparse_ok THEN Fail("PrintExpr:library-cannot-reread", st)
+      ELSE IF Matches(srcC, obsC, cc) /\ Matches(srcU, obsU, uu) THEN Ok(st)
+      ELSE Fail("PrintExpr:structure-or-value", st)
+
+----------------------------------------------------------------------------
 (* Renaming (C18): the handle e.h is a second parse of the same text whose   *)
 (* action e.act had its parameters renamed in place by the map e.map.        *)
 
@@ -394,6 +439,7 @@ Judge(e, st) ==
     [] e.c = "ParseTrajectory"  -> JParseTrajectory(e, st)
     [] e.c = "Ground"       -> JGround(e, st)
     [] e.c = "Rename"       -> JRename(e, st)
+    [] e.c = "PrintExpr"    -> JPrintExpr(e, st)
     [] e.c = "ExportDomain" -> JExportDomain(e, st)
     [] e.c = "ExportProblem" -> JExportProblem(e, st)
     [] e.c = "CopyState"    -> JCopyState(e, st)
